@@ -30,8 +30,8 @@ ENTRIES = {
                 "store wrapper performs pruner removals between those calls of the real worker.",
         "design_ref": "7 C25, A.3",
         "note": "Real-clock window checks are kept >= 50 s away from any boundary (headers 100 s apart); the "
-                "pruner is played by the harness and obeys C35. Slow-sync is disabled in recorded runs (huge pruning "
-                "window) and is not part of the model.",
+                "pruner is played by the harness and obeys C35. Slow sync is part of the model (slowH, SlowThr); it is "
+                "inactive in these runs (huge pruning window) and exercised in C38's slow-sync runs.",
         "technique": "TLA+ composition model + TLC; TLC trace validation (strict, then property-only) of the real worker",
     },
     "C38": {
@@ -39,10 +39,13 @@ ENTRIES = {
                 "fairness with honest answers; recorded runs of the real Syncer + real HeaderSession against honest, "
                 "foreign-chain (other validator key, and forks signed by the same validator), truncated, erroring and failing answers with disconnects are "
                 "validated by Trace_Syncer: the store is read back after every event and must only hold honest "
-                "headers; after an honest tail phase the whole sampling window up to the head must be stored.",
+                "headers; after an honest tail phase the whole sampling window up to the head must be stored. Slow sync "
+                "(the syncer waiting for the sampler below the pruning window) is modelled (slowH / SlowThr in Syncer.tla and "
+                "Node.tla, liveness under fairness of the sampler, non-vacuity shown by a refuted invariant) and driven on "
+                "the real worker in dedicated runs in which the harness plays the sampler.",
         "design_ref": "7 C38",
-        "note": "Fork headers are signed by a different validator set (equivocation by the honest set is outside a "
-                "light client's threat model). Head answers come from trusted peers and are honest. Individually "
+        "note": "Foreign chains are signed by another validator in half of the runs and are same-validator forks in "
+                "the other half (only the hash links tell those apart). Head answers come from trusted peers and are honest. Individually "
                 "invalid headers are rejected one layer below (C28) and are not injected here. The pruner is not "
                 "part of C38's environment (see DESIGN: with the bounding header pruned a foreign batch has no "
                 "stored neighbour to contradict it).",
@@ -70,8 +73,13 @@ def mc(ck):
                   required_actions=["TryInit", "HeaderSub", "FetchNext", "BatchOk", "BatchForeign", "BatchFail"],
                   timeout=3000)
         ck.tlc_mc("MC_Syncer", ck.cfg_with("MC_Syncer_live.cfg"), tag="mc_live", timeout=3000)
+        # slow sync in force (the syncer waits for the sampler): still converges; and the configuration is not
+        # vacuous (slow sync does hold the syncer back in some state)
+        ck.tlc_mc("MC_Syncer", ck.cfg_with("MC_Syncer_slow.cfg"), tag="mc_slow", timeout=3000)
+        ck.tlc_mc("MC_Syncer", ck.cfg_with("MC_Syncer_slow_vac.cfg"), tag="mc_slow_vac", expect_violation="SlowSyncNeverHolds")
         # liveness of the whole composition (syncer + daser + pruner): window synced and sampled, old blocks pruned
         ck.tlc_mc("MC_Node", ck.cfg_with("MC_Node_live.cfg"), tag="mc_node_live", timeout=3000, workers=4)
+        ck.tlc_mc("MC_Node", ck.cfg_with("MC_Node_live_vac.cfg"), tag="mc_node_live_vac", expect_violation="SlowSyncNeverHolds")
 
 
 def mc_fetch_section(ck):
@@ -185,6 +193,40 @@ def record_validate(ck, hb, combos=None):
                              f"{json.dumps(ev2 or ev)[:300]}", {"trace": run_lines[:max(at, idx)], "reject": rej2})
 
         ck.validate_trace_runs("Trace_Syncer", strict_cfg, trace, on_reject)
+    if ck.prop == "C38":
+        # slow sync in force (pruning window shorter than the sampling window): the syncer waits for the sampler,
+        # played by the harness; in the end the whole window must be stored
+        trace = f"{ck.work}/trace_slow.ndjson"
+        s = ck.harness(hb, ["record", "syncer-slow", "--seed", ck.seed, "--out", trace, "--runs", 3 if ck.quick else 12],
+                       "record_slow", timeout=3000)
+        p = s["props"]["C38"]
+        ck.cov["evaluations"] += p["evaluations"]
+        ck.cov["distinct_nontrivial"] += p["distinct_nontrivial"]
+        ck.cov["samples"] += p["samples"][:1]
+        consts = {"N": 170, "Batch": 16, "WSamp": 130, "WPrune": 40, "SlowThr": 50}
+        strict_cfg = ck.cfg_with("Trace_Syncer.cfg", dict(consts, Strict="TRUE"), name="Trace_Syncer_ss.cfg")
+        loose_cfg = ck.cfg_with("Trace_Syncer.cfg", dict(consts, Strict="FALSE"), name="Trace_Syncer_ls.cfg")
+
+        def on_reject_slow(rej, run_lines, idx):
+            p2 = f"{ck.work}/loose_slow_{abs(hash(run_lines[0])) % 10**8}.ndjson"
+            open(p2, "w").write("\n".join(run_lines) + "\n")
+            ok, rej2 = ck.tlc_trace("Trace_Syncer", loose_cfg, p2, tag="loose_slow")
+            ev = rej["event"] if isinstance(rej["event"], dict) else {}
+            if ok:
+                ck.cov["drift"] += 1
+                vf.log(f"DRIFT property=C38 (slow sync) event {idx} ({ev.get('name')}): {json.dumps(ev)[:200]}")
+                return
+            inv = rej2.get("invariant")
+            ev2 = rej2["event"] if isinstance(rej2.get("event"), dict) else {}
+            if inv in (None, "StoreOnHonestChain"):
+                ck.violation({"kind": "property", "invariant": inv, "event": ev2.get("name") or "quiescent", "scenario": "slow-sync"},
+                             f"slow-sync run: {inv or 'the sampling window is not stored although honest peers answered, every stored header was sampled and heads kept arriving'} "
+                             f"(event {rej2['at']}): {json.dumps(ev2 or ev)[:300]}",
+                             {"trace": run_lines[:max(rej2['at'], idx)], "reject": rej2, "consts": consts})
+
+        ck.validate_trace_runs("Trace_Syncer", strict_cfg, trace, on_reject_slow)
+        if p["distinct_nontrivial"] == 0 and not ck.violations:
+            raise vf.ToolError("vacuity: the syncer was never idle with an incomplete window in the slow-sync runs")
     if ck.prop == "C25":
         # real clock moving: the stored tail leaves the sampling window while batches below it keep failing
         trace = f"{ck.work}/trace_aging.ndjson"
@@ -233,7 +275,11 @@ def replay(ck):
         nn, batch, k = combo[0]
         if "consts" in c:
             nn, batch, k = c["consts"]["N"], c["consts"]["Batch"], c["consts"]["WSamp"]
-        cfg = ck.cfg_with("Trace_Syncer.cfg", {"N": nn, "Batch": batch, "WSamp": k, "Strict": "FALSE"}, name=f"rt{i}.cfg")
+        over = {"N": nn, "Batch": batch, "WSamp": k, "Strict": "FALSE"}
+        for extra in ("WPrune", "SlowThr"):
+            if extra in c.get("consts", {}):
+                over[extra] = c["consts"][extra]
+        cfg = ck.cfg_with("Trace_Syncer.cfg", over, name=f"rt{i}.cfg")
         ok, rej = ck.tlc_trace("Trace_Syncer", cfg, p, tag=f"rt{i}")
         if not ok:
             ck.violation({"kind": "property", "invariant": rej.get("invariant")}, json.dumps(rej)[:300],
